@@ -20,6 +20,7 @@ EXPLANATION = (
     "inside the async client's frame-write section is covered by the same flag (set at the yield), so dropping the call "
     "future mid-frame leaves the connection poisoned. WebSocket sends are message-atomic (tungstenite keeps the unsent "
     "remainder in the sink) and are exempt by rule. Not decided: stalls of arbitrary duration / kernel buffer sizes."
+    ' The only data-carrying WebSocket message built anywhere in the crate is Binary (no Text / raw Frame fragments with awaits between them).'
 )
 ASSUMPTIONS = [
     "a tokio/std Mutex guard excludes other writers while it is live",
